@@ -60,7 +60,7 @@ func vfC08Gen(rt *rapid.T) vfC08Case {
 		case w < 60:
 			return vfStoreOp{Op: "evict"}
 		case w < 72:
-			return vfStoreOp{Op: "bgflush", Ref: rapid.IntRange(0, 2).Draw(rt, "bg_pause_point")}
+			return vfStoreOp{Op: "bgflush", Ref: rapid.IntRange(0, 4).Draw(rt, "bg_pause_point")}
 		case w < 76:
 			return vfStoreOp{Op: "compact"}
 		default:
@@ -426,7 +426,8 @@ func vfC08Run(c vfC08Case, ctx *vfCtx) *vfViolation {
 				continue
 			}
 			// release the worker; optionally park it again between "segment registered" and "memtable dropped"
-			pause := []string{"", "flush:before_drop", "flush:registered"}[op.Ref%3]
+			pause := []string{"", "flush:before_drop", "flush:registered", "flush:written", "flush:created:hybrid"}[op.Ref%5]
+			userFlush := op.Ref%5 >= 3 // an explicit Flush overlaps the background flush while its segment is half written
 			sched.mu.Lock()
 			sched.parkAt = map[string]bool{}
 			if pause != "" {
@@ -440,6 +441,19 @@ func vfC08Run(c vfC08Case, ctx *vfCtx) *vfViolation {
 				select {
 				case <-sched.arrived:
 					ctx.Class("searched_while_flush_paused_at_" + pause)
+					if userFlush {
+						sched.mu.Lock()
+						sched.harnessBusy = true
+						sched.mu.Unlock()
+						ferr := st.Flush()
+						sched.mu.Lock()
+						sched.harnessBusy = false
+						sched.mu.Unlock()
+						if ferr != nil {
+							return fail("op %d: an explicit Flush overlapping a background flush failed: %v", i, ferr)
+						}
+						ctx.Class("explicit_flush_overlapping_background_flush")
+					}
 					if v := probes(i, op); v != nil {
 						v.Msg = "(background flush paused at " + pause + ") " + v.Msg
 						return v
